@@ -213,3 +213,65 @@ def options_roundtrip_after_load(H, case):
     for name, o in cls.options.items():
         H.check(f"restored[{name}]", H.eq(m2.option_values[name], stored[name]))
     H.cover("reached")
+
+
+@contract("options_chunk_always_written", ["C11", "C03"], cases=_class_cases,
+          targets=["rv.modules.module:Module.specialized_iff_chunks", "rv.modules.module:Module.options_chunks", "rv.synth:Synth.chunks",
+                   "rv.readers.module:ModuleReader.process_SEND", "rv.modules.module:Module.load_options"])
+def options_chunk_always_written(H, cname):
+    """Whole-module statement: for ANY stored option values - including all of them zero - the written
+    module section contains the options chunk (CHNM == the type's options chunk number) whose record
+    covers the highest option byte, and loading the file gives every option the value it had."""
+    from rv.synth import Synth
+    from spec import format as F
+
+    from . import rw
+
+    cls = K.class_by_name(cname)
+    m = cls()
+    stored = {}
+    for name, o in cls.options.items():
+        stored[name] = _sym_stored(H, o)
+        m.option_values[name] = stored[name]
+    data = rw.write_container(H, Synth(m))
+    chunks = F.parse_stream(data)
+    pos = [i for i, c in enumerate(chunks) if bytes(c[0]) == b"CHNM" and F.dec_u32(c[1]) == cls.options_chnm]
+    H.check("options_chunk_present", len(pos) >= 1 and bytes(chunks[pos[0] + 1][0]) == b"CHDT" if pos else False)
+    if pos:
+        top = max(o.byte for o in cls.options.values())
+        H.check("record_covers_highest_option_byte", len(chunks[pos[0] + 1][1]) >= top + 1)
+    q = rw.read_back(H, data).module
+    for name in cls.options:
+        H.check(f"reloaded[{name}]", H.eq(q.option_values[name], stored[name]))
+    H.cover("reached")
+
+
+def _exclusive_pairs():
+    out = []
+    for c in K.module_classes():
+        for name, o in getattr(c, "options", {}).items():
+            for other in o.exclusive_of:
+                if name < other:
+                    out.append((f"{K.cls_id(c)}.{name}+{other}", (K.cls_id(c), name, other)))
+    return out
+
+
+@contract("option_ctor_kwargs", ["C11"], cases=lambda tier: _exclusive_pairs() + [("MetaModule.user_defined_controllers", ("MetaModule", "user_defined_controllers", None))],
+          targets=["rv.modules.module:Module.__init__", "rv.option:Option.__set__"])
+def option_ctor_kwargs(H, case):
+    """Options given as constructor keywords obey the descriptor's rules: two mutually exclusive options
+    given as True never end up both on; an option with declared bounds is clamped into them (any
+    integer); the record written afterwards holds those values."""
+    cname, a, b = case
+    cls = K.class_by_name(cname)
+    if b is not None:
+        m = H.call(cls, **{a: True, b: True})
+        H.check("never_both_on", not (H.getattr(m, a) is True and H.getattr(m, b) is True))
+        return
+    spec = {o.name: o for o in yamlspec.spec_by_mtype()[cls.mtype].options}[a]
+    v = H.int("v", -(2**15), 2**15)
+    m = H.call(cls, **{a: v})
+    got = H.getattr(m, a)
+    H.check("clamped_into_declared_bounds", H.and_(got >= spec.min, got <= spec.max))
+    H.check("in_range_value_kept", H.implies(H.and_(v >= spec.min, v <= spec.max), got == v))
+    H.cover("reached")
